@@ -623,7 +623,8 @@ class C15Engine(gcheck.GEngine):
                             label="c15sweep")
         self.sweep_space = len(sweep_bases) * len(pats) * len(FLAG_VECTORS)
         toks = token_jobs(self.seeds, t["ntok"])
-        others = rng.sample([j for j in corpus if j not in bases], t["nother"])
+        left = [j for j in corpus if j not in bases]
+        others = rng.sample(left, min(len(left), t["nother"]))
         for j in others:
             j.meta["cwd_free"] = True
         poisons = pool.poison_jobs(self.seeds, 10, corpus)
